@@ -95,6 +95,40 @@ func runC16(e *hk.Env) error {
 		inputs = append(inputs, string(b))
 	}
 	e.Stats["random_strings"] = nRandom
+	// shell idioms: multi-byte tokens that mean something to a shell (parameter / command / arithmetic expansion, tilde
+	// forms, assignments, redirections, reserved words, here-doc and history markers). Random bytes essentially never spell
+	// them, and a function that singles one of them out ("leave $HOME/ to the shell like ~/") is exactly what the property
+	// forbids. Every token alone, as a prefix, after "~/", and in random concatenations of two to four tokens.
+	idioms := []string{"$HOME", "$HOME/", "${HOME}", "${HOME}/", "$PWD/", "$USER", "$PATH", "$IFS", "$0", "$1", "$@", "$*", "$#", "$?", "$$", "$!", "$-",
+		"${x}", "${x:-y}", "${x:=y}", "${#x}", "${x%/*}", "${x##*/}", "$(id)", "$(echo x)", "`id`", "$((1+1))", "$[1+1]", "$'\\n'", "$\"x\"",
+		"~", "~/", "~root", "~root/", "~+", "~+/", "~-", "~-/", "~nobody/x", "~/~", "~//", "~/$HOME", "~/`id`", "~/$(id)", "~/*", "~/ x", "~/'", "~/\"",
+		"x=~/y", "PATH=~/bin:$PATH", "a=b", "a=b c", "-n", "-e", "--", "-", "!", "!!", "!$", "!x", "^a^b", "#x", "# x", "x #y", "%1",
+		"*", "?", "[a-z]", "[!a]", "{a,b}", "{1..3}", "*.go", "/*", "./*", "../..", ".", "..", "/", "//", "/etc/passwd", "a/b c/d",
+		">x", ">>x", "<x", "<<EOF", "<<<x", "2>&1", "&>x", ">|x", "<>x", "|", "||", "&", "&&", ";", ";;", "(", ")", "(x)", "{ x; }",
+		"if", "then", "fi", "for", "do", "done", "while", "case", "esac", "in", "function", "time", "exec", "eval", "exit", "true", ":", "[", "[[", "]]", "test",
+		"\\", "\\\n", "\\'", "'\\''", "'\"'\"'", "\"'\"", "''", "\"\"", "' '", "a'b", "a\"b", "a'b\"c'd", "'a'", "\"a\"", "$'a'", "\n", "\r\n", "\t", " ", "  ",
+		"\x1b[31m", "\x7f", "\xff", "\xc3", "\u00e9", "\u3000", "\u2028"}
+	nIdiom := 0
+	for _, w := range idioms {
+		inputs = append(inputs, w, w+"x", "x"+w, "~/"+w, w+"/x y", w+" "+w)
+		nIdiom += 6
+	}
+	nCat := 3000
+	if e.Thorough() {
+		nCat = 40000
+	}
+	for i := 0; i < nCat; i++ {
+		var sb strings.Builder
+		for k := 2 + r.Intn(3); k > 0; k-- {
+			sb.WriteString(idioms[r.Intn(len(idioms))])
+			if r.Chance(25) {
+				sb.WriteByte("/ x'\"$"[r.Intn(6)])
+			}
+		}
+		inputs = append(inputs, sb.String())
+		nIdiom++
+	}
+	e.Stats["shell_idiom_strings"] = nIdiom
 	// every Unicode code point of the BMP (and the astral "special" ranges) embedded in a word: the functions must be
 	// transparent to every character, visible or not (a "bidi hardening" that dropped invisible controls was a seeded regression)
 	nUni := 0
